@@ -227,12 +227,25 @@ Lemma native_fn_ptr_ok x : x < two32 -> instr_ok (INativeFunctionPointer x).
 Proof. intros. ok_args. Qed.
 
 (* ---- scopes ---- *)
-Lemma pop_locals_ok rls d : Forall instr_ok (snd (pop_locals rls d)).
+(* d723a2c: the operand of a CloseUpvalue emitted by scope_end is the number of locals left after the
+   pop: strictly below the number of locals before it, hence <= 254 for an ArrayVec<Local, 255> *)
+Definition close_small (n : nat) (i : instr) : Prop :=
+  match i with ICloseUpvalue x => x < N.of_nat n | _ => True end.
+Lemma pop_locals_close_small rls d : Forall (close_small (length rls)) (snd (pop_locals rls d)).
 Proof.
   induction rls as [|l r IH]; cbn [pop_locals]; [constructor|].
   destruct (d <? l_depth l)%Z; [|constructor].
+  destruct (pop_locals r d) as [r' is]. cbn [snd length] in *. constructor.
+  - destruct (l_captured l); cbn; [lia | exact I].
+  - eapply Forall_impl; [|exact IH]. intros i. destruct i; cbn; auto. lia.
+Qed.
+Lemma pop_locals_ok rls d : (length rls <= 255)%nat -> Forall instr_ok (snd (pop_locals rls d)).
+Proof.
+  induction rls as [|l r IH]; cbn [pop_locals length]; intros Hlen; [constructor|].
+  destruct (d <? l_depth l)%Z; [|constructor].
+  assert (Hr : (length r <= 255)%nat) by lia. specialize (IH Hr).
   destruct (pop_locals r d) as [r' is]. cbn [snd] in *. constructor; auto.
-  destruct (l_captured l); ok_args.
+  destruct (l_captured l); ok_args. apply fits4. unfold two32. lia.
 Qed.
 Lemma pop_locals_length rls d : (length (fst (pop_locals rls d)) <= length rls)%nat.
 Proof.
@@ -254,7 +267,8 @@ Proof.
     destruct H5 as [|ls rest Hls Hrest]; cbn; constructor; auto.
     rewrite rev_length. subst rlis. cbn [hd].
     pose proof (pop_locals_length (rev ls) (hd 0%Z ds)). rewrite rev_length in H. lia. }
-  apply (sp2_push_raws (snd rlis) (pop_locals_ok _ _) s1 HI1).
+  refine (sp2_push_raws (snd rlis) (pop_locals_ok _ _ _) s1 HI1).
+  rewrite rev_length. destruct HI as [_ _ _ _ H5 _ _]. destruct H5; cbn; lia.
 Qed.
 
 Lemma sp2_compile_begin : sp2 compile_begin (fun _ => True).
@@ -330,7 +344,7 @@ Proof.
   destruct below as [|parent rest]; [injection H as <- <- <-; cbn; auto|].
   destruct ups as [|ucur ubelow]; [injection H as <- <- <-; cbn; auto|].
   inversion Hl as [|? ? Hcur Hbelow]; subst. inversion Hu as [|? ? Hucur Hubelow]; subst.
-  destruct (find_index _ parent 0) as [i|] eqn:Ef.
+  destruct (rfind_index _ parent 0 None) as [i|] eqn:Ef.
   - destruct (add_upvalue ucur (N.of_nat i mod 256) true) as [[k ucur']|] eqn:Ea; [|discriminate].
     injection H as <- <- <-.
     destruct (add_upvalue_ok _ _ _ _ _ Hucur ltac:(apply N.mod_lt; discriminate) Ea) as [Hok Hk].
